@@ -239,6 +239,10 @@ def P2(m, R):
                 if not isinstance(s0.op, (ast.Add, ast.Sub)):
                     raise Undecided('statement %s' % short(s0))
                 val = ast.BinOp(left=tgt, op=s0.op, right=s0.value)
+            if isinstance(tgt, ast.Name) and isinstance(s0, ast.Assign) and (
+                    isinstance(val, (ast.BoolOp, ast.Compare)) or (isinstance(val, ast.UnaryOp) and isinstance(val.op, ast.Not)) or
+                    (isinstance(val, ast.Constant) and isinstance(val.value, bool)) or (isinstance(val, ast.Call) and call_name(val) == 'bool')):
+                return run(rest, st, k)          # a truth value kept in a local: no effect on cursor or pieces (read by the accept test below)
             if isinstance(val, ast.Call) and call_name(val) == 'AnsiControlSequence' and len(val.args) == 2 and isinstance(tgt, ast.Name):
                 st['objs'] = dict(st.get('objs', {}))
                 st['objs'][tn] = (sval(val.args[0], st, s0), sval(val.args[1], st, s0))
@@ -396,15 +400,45 @@ def P2(m, R):
             'the read %s is not covered by a `< len(%s)` test on some path (IndexError at the end of the input)' % (reads_unguarded[0][1] if reads_unguarded else '', s),
             construct='index guard')
     # ---- accept condition: truth table
-    acc_if = next((n for n in ast.walk(outer) if isinstance(n, ast.If) and any(call_name(x) == 'AnsiControlSequence' for x in ast.walk(n)) and
-                   (acc in names_in(n.test) or allow in names_in(n.test))), None)
     cons = 'accept condition'
     rec_call = next((x for x in ast.walk(outer) if isinstance(x, ast.Call) and call_name(x) == 'AnsiControlSequence' and len(x.args) == 2), None)
     term_var = norm(rec_call.args[1]) if rec_call is not None and isinstance(rec_call.args[1], ast.Name) else None
+    # the split: the innermost `if` with the record in one branch only
+    acc_if = None
+    for n in ast.walk(outer):
+        if isinstance(n, ast.If) and rec_call is not None:
+            inb = any(rec_call is x for b_ in n.body for x in ast.walk(b_))
+            ino = any(rec_call is x for b_ in n.orelse for x in ast.walk(b_))
+            if inb != ino and n.orelse and (acc_if is None or any(n is x for x in ast.walk(acc_if))):
+                acc_if = n
     if acc_if is None or term_var is None:
         R.undecided(f, outer, 'record / put-back split not found', construct=cons)
         return
     rec_in_body = any(rec_call is x for b_ in acc_if.body for x in ast.walk(b_))
+    # truth values computed into locals before the split are read through their definitions
+    def bool_def(name, depth=0):
+        defs_ = [x for x in ast.walk(outer) if isinstance(x, ast.Assign) and len(x.targets) == 1 and is_name(x.targets[0], name)]
+        if len(defs_) == 1:
+            return expand(defs_[0].value, depth + 1)
+        if len(defs_) == 2 and isinstance(getattr(defs_[0], '_parent', None), ast.If) and defs_[0]._parent is getattr(defs_[1], '_parent', None):
+            g_ = defs_[0]._parent
+            a_, b_ = (defs_[0], defs_[1]) if defs_[0] in g_.body else (defs_[1], defs_[0])
+            return ast.IfExp(test=expand(g_.test, depth + 1), body=expand(a_.value, depth + 1), orelse=expand(b_.value, depth + 1))
+        return None
+
+    def expand(e, depth=0):
+        if depth > 4:
+            return e
+        class X(ast.NodeTransformer):
+            def visit_Name(self, n_):
+                if n_.id not in (term_var, acc, allow):
+                    d_ = bool_def(n_.id, depth)
+                    if d_ is not None:
+                        return d_
+                return n_
+        from ..model import astcopy
+        return X().visit(astcopy(e))
+    acc_test = expand(acc_if.test)
     bad = []
     for state in ('empty', 'acc', 'nonacc'):
         for al in (True, False):
@@ -417,12 +451,12 @@ def P2(m, R):
                     extra['%s in %s' % (term_var, acc)] = in_acc
                     extra['%s not in %s' % (term_var, acc)] = not in_acc
                 val = flag_valuation({allow: al}, extra)
-                got = eval_guard(acc_if.test, val)
+                got = eval_guard(acc_test, val)
                 if got is not None and not rec_in_body:
                     got = not got
                 want = (nonempty or al) and ((not given) or in_acc)
                 if not given:
-                    for a in evaluated_atoms(acc_if.test, val):
+                    for a in (evaluated_atoms(acc_test, val) if not any(isinstance(x, ast.IfExp) for x in ast.walk(acc_test)) else []):
                         if isinstance(a, ast.Compare) and isinstance(a.ops[0], (ast.In, ast.NotIn)) and norm(a.comparators[0]) == acc:
                             got = 'TypeError (membership test on None)'
                 if got != want:
